@@ -164,7 +164,7 @@ class FindKey(Contract):
 class Update(Contract):
     target = "mappyfile.dictutils.update"
     cases = ["scalar:overwrite", "scalar:keep", "scalar:new-key:keep", "delete-marker", "delete-marker-absent", "nested-merge", "nested-new", "nested-delete",
-             "list-merge", "list-none-skips", "list-append", "list-delete-item", "root-delete", "untouched-keys"]
+             "list-merge", "list-none-skips", "list-append", "list-delete-item", "list-item-emptied", "list-empty-item-kept", "root-delete", "untouched-keys"]
     props = ("C18",)
     doc = "fixed shapes (one or two keys per level, lists of up to two dicts), symbolic values; both overwrite modes"
 
@@ -208,6 +208,12 @@ class Update(Contract):
         elif case == "list-delete-item":
             d1 = ciod(E, [("layers", [ciod(E, [("x", a0)]), ciod(E, [("x", b0)])])])
             d2 = plain([("layers", [plain([("__delete__", True)])])])
+        elif case == "list-item-emptied":
+            d1 = ciod(E, [("layers", [plain([("x", a0)]), plain([("x", b0)])])])
+            d2 = plain([("layers", [plain([("x", "__delete__")])])])
+        elif case == "list-empty-item-kept":
+            d1 = ciod(E, [("layers", [plain([]), plain([("x", b0)])])])
+            d2 = plain([("layers", [None, plain([("x", n)])])])
         elif case == "root-delete":
             d1 = ciod(E, [("a", a0)])
             d2 = plain([("__delete__", True)])
@@ -266,6 +272,12 @@ class Update(Contract):
         elif case == "list-delete-item":
             l = d1["layers"]
             yield "item-removed", len(l) == 1 and same(l[0], [("x", b0)])
+        elif case == "list-item-emptied":
+            l = d1["layers"]
+            yield "an-item-is-removed-only-by-__delete__", len(l) == 2 and same(l[0], []) and same(l[1], [("x", b0)])
+        elif case == "list-empty-item-kept":
+            l = d1["layers"]
+            yield "empty-item-skipped-by-None-stays", len(l) == 2 and same(l[0], []) and same(l[1], [("x", n)])
         else:
             yield "unmentioned-keys-untouched", same(d1, [("a", a0), ("b", n), ("c", sym("c0"))])
         yield "patch-not-modified", _unchanged([d2], E.__dict__["d2snap"])
